@@ -110,6 +110,16 @@ def ref_outcomes(s, t):
 
 
 def gen_string(rng, t):
+    s = gen_string0(rng, t)
+    if s and rng.random() < 0.03:
+        # a non-ASCII character whose low byte is an ASCII digit / sign / letter of the literal must not be taken for it (same outcome in every string width)
+        p = rng.randrange(len(s))
+        if ord(s[p]) < 0x80:
+            s = s[:p] + chr(ord(s[p]) + 0x100 * rng.choice([1, 2, 4, 0x20, 0x30, 0xFF])) + s[p + 1:]
+    return s
+
+
+def gen_string0(rng, t):
     r = rng.random()
     blanks = rng.choice(['', '', '', ' ', '  ', '\t', ' \t '])
     trail = rng.choice(['', '', '', ' ', 'x', ' 1', 'e', '.', '..5', 'e+', 'é', '\U0001F600', '\x00', '\x001', '-', ',5', 'f', 'L', '%'])
